@@ -160,10 +160,115 @@ func contains(xs []string, s string) bool {
 }
 
 // C11: Pull, Worker and Admin APIs act only for authorized callers.
+// c11BlankSources: token references whose source resolves to nothing but white
+// space (file with "\n", " \n", "\r\n", tabs; env var of blanks; empty file / env).
+// Such a configuration declares tokens, so it compiles; whatever the process
+// then does - refuse to start / refuse the reload, or run - a caller without
+// a token must never be let in on the surface whose allowlist went blank.
+func c11BlankSources(c *vlib.Ctx, dir string) {
+	blanks := []string{"\n", " \n", "\r\n", "\t \n", "   ", ""}
+	type variant struct{ surface, via, when string }
+	var vs []variant
+	for _, surface := range []string{"pull_global", "pull_route", "admin"} {
+		for _, via := range []string{"file", "env"} {
+			for _, when := range []string{"startup", "reload"} {
+				vs = append(vs, variant{surface, via, when})
+			}
+		}
+	}
+	for vi, v := range vs {
+		for bi, blank := range blanks {
+			if !c.Thorough() && (vi+bi)%3 != 0 {
+				continue
+			}
+			r := vlib.Derive(c.Seed, "C11blank", vi, bi)
+			mkRef := func(tag, content string) (string, func(string)) {
+				if v.via == "file" {
+					p := filepath.Join(dir, fmt.Sprintf("blank-%s-%d-%d-%x", tag, vi, bi, r.U64()&0xffff))
+					_ = os.WriteFile(p, []byte(content), 0o600)
+					return "file:" + p, func(nc string) { _ = os.WriteFile(p, []byte(nc), 0o600) }
+				}
+				name := fmt.Sprintf("VERIF_C11_BLANK_%s_%d_%d", strings.ToUpper(tag), vi, bi)
+				os.Setenv(name, content)
+				return "env:" + name, func(nc string) { os.Setenv(name, nc) }
+			}
+			first := "good-" + fmt.Sprint(vi, bi)
+			if v.when == "startup" {
+				first = blank
+			}
+			ref, set := mkRef(v.surface, first)
+			other := "raw:othertok"
+			gl, rtTok, adm := other, "", other
+			switch v.surface {
+			case "pull_global":
+				gl = ref
+			case "pull_route":
+				rtTok = ref
+			case "admin":
+				adm = ref
+			}
+			var b strings.Builder
+			fmt.Fprintf(&b, "ingress { listen 127.0.0.1:0 }\npull_api { listen 127.0.0.2:0\n grpc_listen 127.0.0.4:0\n auth token %s\n}\nadmin_api { listen 127.0.0.3:0\n auth token %s\n}\n", l2.Quote(gl), l2.Quote(adm))
+			fmt.Fprintf(&b, "/in0 {\n queue { backend memory }\n pull { path /e0\n")
+			if rtTok != "" {
+				fmt.Fprintf(&b, "  auth token %s\n", l2.Quote(rtTok))
+			}
+			b.WriteString(" } }\n")
+			a, err := l2.Start(dir, b.String(), nil, vlib.NewVClock(vlib.Epoch))
+			c.Count("evaluations", 1)
+			c.Count("blank_source_trials", 1)
+			outcome := "started"
+			if err != nil {
+				outcome = "refused_to_start"
+			}
+			if err == nil && v.when == "reload" {
+				set(blank)
+				if a.Reload() {
+					outcome = "reload_applied"
+				} else {
+					outcome = "reload_refused"
+				}
+			}
+			c.Distinct("nontrivial", fmt.Sprintf("blank_source:%s:%s:%s:%q:%s", v.surface, v.via, v.when, blank, outcome))
+			if err != nil {
+				continue // refusing the configuration is fine
+			}
+			_ = a.Store.Enqueue(queue.Envelope{ID: "b1", Route: "/in0", Target: "pull", Payload: []byte("p")})
+			wit := map[string]any{"surface": v.surface, "via": v.via, "when": v.when, "blank_content": blank, "outcome": outcome, "config": b.String()}
+			for _, values := range [][]string{nil, {""}, {"Bearer "}, {"Bearer"}, {"Bearer  "}, {"garbage"}} {
+				var status int
+				switch v.surface {
+				case "admin":
+					req := l2.JSONReq("GET", a.Compiled.AdminAPI.Prefix+"/messages", nil, "")
+					req.Header.Del("Authorization")
+					for _, hv := range values {
+						req.Header.Add("Authorization", hv)
+					}
+					status = l2.Do(a.Admin, req).Status
+				default:
+					req := l2.JSONReq("POST", a.Compiled.PullAPI.Prefix+"/e0/dequeue", map[string]any{"batch": 1}, "")
+					req.Header.Del("Authorization")
+					for _, hv := range values {
+						req.Header.Add("Authorization", hv)
+					}
+					status = l2.Do(a.Pull, req).Status
+				}
+				if status != 401 {
+					c.Violation(vlib.Signature{"class": "blank_token_source_opens_surface", "surface": v.surface, "via": v.via, "when": v.when},
+						fmt.Sprintf("%s allowlist whose only token comes from a %s holding %q (%s, %s): a request with Authorization %q was answered %d, not 401", v.surface, v.via, blank, v.when, outcome, values, status), wit)
+					break
+				}
+			}
+			a.Close()
+		}
+	}
+}
+
 func C11(c *vlib.Ctx) {
 	c.Rule("generated configurations (0-3 global pull tokens, 2-4 pull routes with 0-2 own tokens, 0-2 admin tokens as raw:/env:/file: refs) run through the production wiring; the queue is pre-loaded with ready and leased messages whose lease ids the caller knows; every endpoint x {dequeue, ack, nack, extend} over HTTP and gRPC and every Admin endpoint/method pair (incl. /healthz, mutations and unknown paths) is called with each credential variant (absent, empty, scheme alone, valid, prefix/suffix/+1 char/case variant, another route's token, the global token on an override route, Basic, no scheme, two values, NUL). Independent allowlist oracle: not authorized => 401/Unauthenticated and snapshot unchanged; authorized => not 401 (vacuity guard). Configurations with a pull route lacking any token must not compile. distinct_nontrivial = distinct (surface, operation, credential variant, authorized, outcome) classes.")
 	c.Assume("lower-case scheme spelling and a valid token in a second header value are treated as ambiguous (either answer accepted); whitespace-only variations of a valid header are not generated")
 	dir := c.Scratch()
+	c11BlankSources(c, dir)
 	nCfg := c.N(36, 1200)
 	authorizedSeen := 0
 	for ci := 0; ci < nCfg; ci++ {
